@@ -732,6 +732,56 @@ fn run_early_burst(mode: Mode, n: u32) -> (String, String, String, String) {
     )
 }
 
+/// everything happens before the listener call: two peers connect, say hello and close, one after the
+/// other.  The cache then holds Accepted, Message, Disconnected per peer; they are delivered in exactly that
+/// order (in enqueue mode: the queue the user reads from keeps it too).
+fn run_early_gone(mode: Mode) -> (String, String, String, String) {
+    let (handler, listener) = node::split::<u64>();
+    let (_l, addr) = handler.network().listen(Transport::FramedTcp, "127.0.0.1:0").unwrap();
+    let observed: Arc<Mutex<Vec<Ev>>> = Arc::new(Mutex::new(vec![]));
+    let mut expected: Vec<Ev> = vec![];
+    for k in 0..2u8 {
+        let mut s = TcpStream::connect(addr).unwrap();
+        s.set_nodelay(true).ok();
+        let local = s.local_addr().unwrap();
+        let _ = s.write_all(&framed(&[k; 5]));
+        std::thread::sleep(Duration::from_millis(60));
+        drop(s);
+        std::thread::sleep(Duration::from_millis(60));
+        expected.push(Ev::Accepted(local));
+        expected.push(Ev::Message(local, vec![k; 5]));
+        expected.push(Ev::Disconnected(local));
+    }
+    std::thread::sleep(Duration::from_millis(100));
+    let obs2 = observed.clone();
+    let running = start(mode, &handler, listener, move |e| {
+        if !matches!(e, Ev::Signal(_)) {
+            obs2.lock().unwrap().push(e);
+        }
+    });
+    let deadline = Instant::now() + Duration::from_secs(3);
+    while observed.lock().unwrap().len() < expected.len() && Instant::now() < deadline {
+        std::thread::sleep(Duration::from_millis(5));
+    }
+    std::thread::sleep(Duration::from_millis(40));
+    handler.stop();
+    let returned = finish(running, Duration::from_secs(3));
+    let obs = observed.lock().unwrap().clone();
+    let order_ok = obs == expected;
+    let first_diff = obs.iter().zip(expected.iter()).position(|(a, b)| a != b).or(if obs.len() != expected.len() { Some(obs.len().min(expected.len())) } else { None });
+    (
+        format!("node earlygone {}", mode.name()),
+        format!("order={} delivered={}", if order_ok { "ok" } else { "broken" }, obs.len()),
+        if order_ok && returned.is_some() {
+            "ok".into()
+        }
+        else {
+            format!("FAIL first difference at {:?}: got {:?} expected {:?} (observed {} of {})", first_diff, first_diff.and_then(|i| obs.get(i)), first_diff.and_then(|i| expected.get(i)), obs.len(), expected.len())
+        },
+        format!("early,gone,cached3,disconnect,{}", mode.name()),
+    )
+}
+
 // -------------------------------------------------------------------------------------------------
 // C15: the hand-over itself, while a peer keeps sending
 
@@ -981,6 +1031,10 @@ fn main() {
                 emit(&mut out, &c, &i, &o, &t);
             }
             for m in modes {
+                let (c, i, o, t) = run_early_gone(m);
+                emit(&mut out, &c, &i, &o, &t);
+            }
+            for m in modes {
                 for udp in [true, false] {
                     let (c, i, o, t) = run_early_busy(m, udp);
                     emit(&mut out, &c, &i, &o, &t);
@@ -998,6 +1052,7 @@ fn main() {
                     ["node", "serial", m, d] => run_serial(parse_mode(m), d.parse().unwrap_or(0)),
                     ["node", "stop", m, sc, p] => run_stop(parse_mode(m), sc, p.parse().unwrap_or(0)),
                     ["node", "tcp", m, late] => run_tcp_late(parse_mode(m), late.parse().unwrap_or(0)),
+                    ["node", "earlygone", m] => run_early_gone(parse_mode(m)),
                     ["node", "earlyburst", m, n] => run_early_burst(parse_mode(m), n.parse().unwrap_or(10)),
                     ["node", "earlybusy", m, k] => run_early_busy(parse_mode(m), *k == "u"),
                     ["node", "early", m, c, l] => run_early(parse_mode(m), c.parse().unwrap_or(0), l.parse().unwrap_or(0), 20, &mut rng),
